@@ -101,6 +101,11 @@ type relay struct {
 	flowMu               sync.Mutex
 	initialWindowSize    uint32
 	connectionWindowSize int // "global" connection-level window size
+	// prefaceForwarded says that dest has been sent the first SETTINGS frame read from src;
+	// heldUpdates is window credit for dest that waits for it. Both are guarded by destMu.
+	prefaceForwarded bool
+	heldUpdates      []heldWindowUpdate
+
 	// outputBuffers is output pending available window size per-stream
 	outputBuffers map[uint32]*outputBuffer
 	// output stores stream output that is ready to be sent over HTTP/2. It provides a way to
@@ -368,6 +373,17 @@ func (r *relay) processFrame(f http2.Frame) error {
 				}
 				r.destMu.Lock()
 				err = r.dest.WriteSettings(settings...)
+				if err == nil && !r.prefaceForwarded {
+					// The destination has its first SETTINGS frame: credit that was
+					// waiting for it (see sendWindowUpdates) follows.
+					r.prefaceForwarded = true
+					for _, h := range r.heldUpdates {
+						if err = r.writeWindowUpdates(h.streamID, h.n); err != nil {
+							break
+						}
+					}
+					r.heldUpdates = nil
+				}
 				r.destMu.Unlock()
 			}
 		}
@@ -610,12 +626,32 @@ func (r *relay) sendWindowUpdates(f *http2.DataFrame) error {
 	}
 	r.destMu.Lock()
 	defer r.destMu.Unlock()
+	if !r.prefaceForwarded {
+		// The destination has not been sent the first SETTINGS frame of the other endpoint
+		// yet, which has to be the first frame it receives (RFC 7540, section 3.5: clients
+		// fail the connection with PROTOCOL_ERROR otherwise). A client may send DATA right
+		// after its own preface, before the server has spoken: the credit for it waits.
+		r.heldUpdates = append(r.heldUpdates, heldWindowUpdate{f.StreamID, n})
+		return nil
+	}
+	return r.writeWindowUpdates(f.StreamID, n)
+}
+
+// writeWindowUpdates returns n bytes of credit for the connection and for the stream. The caller
+// holds destMu.
+func (r *relay) writeWindowUpdates(streamID uint32, n uint32) error {
 	// First updates the connection level window.
 	if err := r.dest.WriteWindowUpdate(0, n); err != nil {
 		return err
 	}
 	// Next updates the stream specific window.
-	return r.dest.WriteWindowUpdate(f.StreamID, n)
+	return r.dest.WriteWindowUpdate(streamID, n)
+}
+
+// heldWindowUpdate is credit that waits for the destination's first SETTINGS frame.
+type heldWindowUpdate struct {
+	streamID uint32
+	n        uint32
 }
 
 func (r *relay) decodeFull(data []byte) ([]hpack.HeaderField, error) {
